@@ -2,6 +2,7 @@
 C09 — undeliverable messages surface exactly once as events, never silently.
 -/
 import HW.Proofs.Engine
+import HW.Props.Facts
 namespace HW.C09
 open HW.Engine
 
@@ -39,5 +40,12 @@ example :
     esReceive e [⟨"local", "s/a"⟩, ⟨"local", "s/dead"⟩, ⟨"other:1", "s/x"⟩] (.event 7) =
       ([⟨"local", "s/a"⟩], [(⟨"local", "s/a"⟩, 7)]) := by
   decide
+
+/-- "sending never blocks the caller", the part that is about the registry: the registry's mutex is taken by the methods
+    of registry.go only (each one critical section, C10.registry_ops_atomic), never by `Engine.send` / `SendLocal` /
+    `BroadcastEvent` themselves — so a send cannot hold it across the dead-letter broadcast (which looks the event
+    stream up again) and wait on itself. Regenerated from the source on every run. -/
+theorem registry_lock_not_held_across_sends : Generated.registryMuPrivate = true :=
+  Facts.registry_mutex_private
 
 end HW.C09
